@@ -45,6 +45,26 @@ def scenarios(ctx):
                 steps.append({"op": "adv", "d": ttl + rng.choice([-tps, 0, tps, 4 * tps])})
         out.append({"id": "overcap-%d" % i, "cfg": {"tick_ms": 1000 // tps, "rates": rates, "cap": cap, "level": "http",
                                                     "extract": "custom", "qualified": False, "solo": True, "overcap": True}, "steps": steps})
+    # per-source rates from a rate extractor (the ExtractRates option): a source's entry lives ten times the longest period of
+    # ITS rates, so "nearest to expiry" is not "least recently seen"; capacity pressure from sources on the default rates
+    for i in range(40 if quick else 400):
+        default = [{"p": rng.choice([1, 2]), "a": 1, "b": rng.choice([1, 2])}]
+        cap = rng.randint(2, 4)
+        nsrc = cap + rng.randint(1, 3)
+        sources = ["s%d" % j for j in range(1, nsrc + 1)]
+        special = {}
+        for src in rng.sample(sources, rng.randint(1, 2)):
+            special[src] = [{"p": rng.choice([30, 60, 120]), "a": rng.choice([1, 2]), "b": rng.choice([1, 2, 3])}]
+        steps = []
+        for _ in range(60 if quick else 200):
+            x = rng.random()
+            if x < 0.75:
+                steps.append({"op": "req", "src": rng.choice(sources), "n": 1})
+            else:
+                steps.append({"op": "adv", "d": rng.choice([1, 1, 2, 3, 5, 12, 25])})
+        out.append({"id": "extracted-%d" % i, "cfg": {"tick_ms": 1000, "rates": default, "srcrates": special, "cap": cap, "level": "http",
+                                                      "extract": "custom", "qualified": False, "approx": True, "solo": True,
+                                                      "overcap": True}, "steps": steps})
     return out
 
 
